@@ -1,49 +1,88 @@
 #!/usr/bin/env python3
 """Run registered checks against the seeded (property-breaking) changes kept under /verif/seeded/<name>/.
 
-usage: run_seeded.py [name ...] [--tier quick|thorough] [--props C14,C02]
-For each seeded change: `git -C /repo apply patch.diff`, run ./check for the property it breaks (meta.json "property",
-plus "also" if listed, or --props), record exit code + VIOLATION lines in seeded/<name>/last_run.json, and undo the change
-(`git -C /repo checkout -- .`) even when the check crashes.  /repo must be clean before starting.
+usage: run_seeded.py [name ...] [--tier quick|thorough] [--props C14,C02] [--both] [--inplace]
+Default: a scratch worktree of /repo HEAD is created under /tmp/seedrun-<pid>, each patch is applied there and the
+checks run with Y0_REPO pointing at it (evidence and replays redirected to /tmp), so /repo and the committed evidence
+are never touched.  --inplace applies the patch to /repo itself (git apply / git checkout -- .), as the task brief describes.
+--both runs every check twice: as registered (a changed anchored file escalates the generator) and with
+VERIF_NO_ESCALATE=1 (the plain quick tier), and records both in seeded/<name>/last_run.json.
 """
-import json, subprocess, sys, time
+import json, os, subprocess, sys, time, tempfile, shutil
 from pathlib import Path
 
 ROOT = Path(__file__).resolve().parent.parent
-REPO = "/repo"
-args = [a for a in sys.argv[1:] if not a.startswith("--")]
-tier = "quick"
-props_override = None
-for i, a in enumerate(sys.argv):
-    if a == "--tier":
-        tier = sys.argv[i + 1]; args = [x for x in args if x != tier]
-    if a == "--props":
-        props_override = sys.argv[i + 1].split(","); args = [x for x in args if x != sys.argv[i + 1]]
-names = args or sorted(p.name for p in (ROOT / "seeded").iterdir() if (p / "patch.diff").exists())
-st = subprocess.run(["git", "-C", REPO, "status", "--porcelain", "--untracked-files=no"], capture_output=True, text=True).stdout
-if st.strip():
-    sys.exit("refusing: /repo has uncommitted changes:\n" + st)
+argv = sys.argv[1:]
+def opt(name, has_val):
+    if name in argv:
+        i = argv.index(name)
+        v = argv[i + 1] if has_val else True
+        del argv[i:i + (2 if has_val else 1)]
+        return v
+    return None
+tier = opt("--tier", True) or "quick"
+props_override = opt("--props", True)
+both = bool(opt("--both", False))
+inplace = bool(opt("--inplace", False))
+names = argv or sorted(p.name for p in (ROOT / "seeded").iterdir() if (p / "patch.diff").exists())
+
+def sh(*a, **k):
+    return subprocess.run(list(a), capture_output=True, text=True, **k)
+
+if inplace:
+    repo = "/repo"
+    if sh("git", "-C", repo, "status", "--porcelain", "--untracked-files=no").stdout.strip():
+        sys.exit("refusing: /repo has uncommitted changes")
+    tmp = None
+else:
+    tmp = tempfile.mkdtemp(prefix="seedrun-")
+    repo = os.path.join(tmp, "repo")
+    r = sh("git", "-C", "/repo", "worktree", "add", "--detach", repo, "HEAD")
+    if r.returncode != 0:
+        sys.exit("cannot create scratch worktree: " + r.stderr)
+env = dict(os.environ)
+env["Y0_REPO"] = repo
+if tmp:
+    env["VERIF_EVIDENCE_DIR"] = os.path.join(tmp, "evidence")
+    env["VERIF_REPLAY_DIR"] = os.path.join(tmp, "replays")
 summary = []
-for name in names:
-    d = ROOT / "seeded" / name
-    meta = json.loads((d / "meta.json").read_text())
-    props = props_override or [meta["property"]] + list(meta.get("also", []))
-    ap = subprocess.run(["git", "-C", REPO, "apply", str(d / "patch.diff")], capture_output=True, text=True)
-    if ap.returncode != 0:
-        print(f"{name}: patch does not apply: {ap.stderr.strip()[:300]}")
-        summary.append((name, "patch-does-not-apply"))
-        continue
-    runs = {}
-    try:
-        for p in props:
-            t0 = time.time()
-            r = subprocess.run(["./check", p, "--tier", tier], cwd=ROOT, capture_output=True, text=True, timeout=3600)
-            vio = [l for l in r.stdout.splitlines() if l.startswith("VIOLATION")]
-            runs[p] = {"exit": r.returncode, "violations": vio, "tail": r.stdout.splitlines()[-1:] , "wall_s": round(time.time() - t0, 1)}
-            print(f"{name}: ./check {p} --tier {tier} -> exit {r.returncode}; {len(vio)} VIOLATION line(s); {runs[p]['tail']}")
-    finally:
-        subprocess.run(["git", "-C", REPO, "checkout", "--", "."], check=True)
-    caught = any(v["exit"] == 1 and v["violations"] for v in runs.values())
-    (d / "last_run.json").write_text(json.dumps({"tier": tier, "runs": runs, "caught": caught}, indent=1))
-    summary.append((name, "CAUGHT" if caught else "MISSED"))
+try:
+    for name in names:
+        d = ROOT / "seeded" / name
+        meta = json.loads((d / "meta.json").read_text())
+        props = props_override.split(",") if props_override else [meta["property"]] + list(meta.get("also", []))
+        ap = sh("git", "-C", repo, "apply", str(d / "patch.diff"))
+        if ap.returncode != 0:
+            print(f"{name}: patch does not apply: {ap.stderr.strip()[:300]}")
+            summary.append((name, "patch-does-not-apply"))
+            continue
+        runs = {}
+        try:
+            for p in props:
+                for mode in (["escalated", "plain"] if both else ["escalated"]):
+                    e = dict(env)
+                    if mode == "plain":
+                        e["VERIF_NO_ESCALATE"] = "1"
+                    t0 = time.time()
+                    try:
+                        r = sh("./check", p, "--tier", tier, cwd=ROOT, env=e, timeout=3600)
+                        rc, out = r.returncode, r.stdout
+                    except subprocess.TimeoutExpired:
+                        rc, out = 2, ""
+                    vio = [l for l in out.splitlines() if l.startswith("VIOLATION")]
+                    tail = [l for l in out.splitlines() if l.startswith(f"[{p}] tier=")][-1:]
+                    runs[f"{p}:{mode}"] = {"exit": rc, "violation_lines": len(vio),
+                                           "no_failing_input_only": bool(vio) and all("no-failing-input-found" in v for v in vio),
+                                           "summary": tail, "wall_s": round(time.time() - t0, 1)}
+                    print(f"{name}: ./check {p} [{mode}] -> exit {rc}; {len(vio)} VIOLATION line(s); {tail}", flush=True)
+        finally:
+            subprocess.run(["git", "-C", repo, "checkout", "--", "."], check=True)
+        caught = {m: any(v["exit"] == 1 and v["violation_lines"] for k, v in runs.items() if k.endswith(":" + m))
+                  for m in (["escalated", "plain"] if both else ["escalated"])}
+        (d / "last_run.json").write_text(json.dumps({"tier": tier, "runs": runs, "caught": caught}, indent=1) + "\n")
+        summary.append((name, " ".join(f"{m}={'CAUGHT' if c else 'MISSED'}" for m, c in caught.items())))
+finally:
+    if tmp:
+        sh("git", "-C", "/repo", "worktree", "remove", "--force", repo)
+        shutil.rmtree(tmp, ignore_errors=True)
 print("\n".join(f"{n}: {s}" for n, s in summary))
